@@ -4,6 +4,8 @@ Written by Marten H. van Kerkwijk (@mhvk) for gh:mhvk/baseband_tasks.
 Licensed under the GPLv3.
 """
 
+from fractions import Fraction
+
 import numpy as np
 from astropy import units as u
 from astropy.coordinates import Angle, Longitude
@@ -406,12 +408,11 @@ class Phase(Angle):
             # Check that formatting works at all...
             test = format(self.value, format_spec)
             pre, dot, post = test.partition(".")
-            if post:
-                precise = self.to_string(precision=len(post))
-                pre, _, post = precise.partition(".")
-                # Just to ensure no bad rounding happened
-                pre = format(float(pre), format_spec).partition(".")[0]
-                return pre + dot + post
+            precise = self.to_string(precision=len(post))
+            pre, _, post = precise.partition(".")
+            # Just to ensure no bad rounding happened
+            pre = format(float(pre), format_spec).partition(".")[0]
+            return pre + dot + post
 
         return self.cycle.__format__(format_spec)
 
@@ -450,6 +451,19 @@ class Phase(Angle):
             func = ("{0:1." + str(precision) + "f}").format
 
         def do_format(count, frac):
+            if precision is not None:
+                # Round the exact value of the two doubles.
+                value = Fraction(float(count)) + Fraction(float(frac))
+                scaled = round(abs(value) * 10 ** precision)
+                pre, post = divmod(scaled, 10 ** precision)
+                s = "-" if value < 0 and scaled else "+" if alwayssign else ""
+                s += str(pre)
+                if precision > 0:
+                    s += "." + str(post).zfill(precision)
+                if self.imaginary:
+                    s += "j"
+                return "$" + s + "$" if format == "latex" else s
+
             neg = (count + frac) < 0
             if neg:
                 count = -count
